@@ -611,7 +611,10 @@ pub fn trace(args: &Args) -> i32 {
         segs.push(src);
         let src = segs.concat();
         let (got, outcome) = if segs.len() == 1 { run_program(&src) } else { run_segments(&segs, &seg_fmts) };
-        out.line(&json!({"ev":"reset","kinds":kinds,"program":src,"trace":t}));
+        // for checkpointed traces: does the same text, run without any checkpoint, read the same?
+        // (then a disagreement with the spec is not the checkpoint's doing)
+        let uncut_same = segs.len() == 1 || run_program(&src) == (got.clone(), outcome.clone());
+        out.line(&json!({"ev":"reset","kinds":kinds,"program":src,"trace":t,"uncut_same":uncut_same}));
         let nb = binds.len();
         if outcome != "ok" {
             out.line(&json!({"ev":"abnormal","outcome":outcome}));
